@@ -929,6 +929,9 @@ class ShortIntegrationFrameComputer(LinearFilterBankFrameComputer):
         # given a buffer, compute its fourier transform. Always copies
         # the data
         assert len(buff) <= self._dft_size
+        if not np.iscomplexobj(buff):
+            # numpy >= 2 no longer upcasts the transform of a non-f64 buffer
+            buff = buff.astype(np.float64, copy=False)
         if config.USE_FFTPACK and self._real:
             from scipy import fftpack
 
